@@ -181,7 +181,7 @@ def c06(tier):
 
 def c14(tier):
     out = []
-    sc = {"x": "unknown", "u": "unknown", "z": "unknown", "v": "unknown", "vcontrol": "unknown", "der": "unknown"}
+    sc = {"x": "unknown", "u": "unknown", "z": "unknown", "v": "unknown", "vcontrol": "unknown", "vcontrol+": "unknown", "der": "unknown"}
     cons = lambda: [Con(E("c1", 1, ("x", "u", "v", "vc")), "le", 1.0, scale=4.0),
                     Con(E("c2", 2, ("x",)), "box", 2.0, lhs=-1.0, scale=0.5),
                     Con(E("c3", 1, ("x", "u")), "eq", 0.5, scale="unknown", grid="integrator"),
@@ -189,8 +189,8 @@ def c14(tier):
     for meth in ("MS", "SS", "DC"):
         for N, M in ((2, 1), (2, 2)):
             out.append(("%s-N%d-M%d-scaled" % (meth, N, M),
-                        _mk(method=meth, N=N, M=M, degree=2, states=[1, 2], scales=dict(sc), variables={"": [1], "control": [1]},
-                            ode=E("f", None, ("x", "u", "t", "v", "vc")), constraints=cons(),
+                        _mk(method=meth, N=N, M=M, degree=2, states=[1, 2], scales=dict(sc), variables={"": [1], "control": [1], "control+": [1]},
+                            ode=E("f", None, ("x", "u", "t", "v", "vc", "vcp")), constraints=cons() + [Con(E("c4", 1, ("x", "vcp")), "le", 1.0)],
                             objective=[("integral", E("L", 1, ("x", "u"))), ("at_tf", E("Mf", 1, ("x",)))])))
     out.append(("DC-dae-scaled", _mk(method="DC", N=2, M=1, degree=2, algebraics=[1], scales=dict(sc),
                                      ode=E("f", None, ("x", "u", "z", "t")), alg=E("g", None, ("x", "z", "u")),
@@ -220,13 +220,24 @@ def c02(tier):
 def c09(tier):
     out = []
     P = {"": [1, 2], "control": [1, 2], "control+": [2]}
+    PM = {"": [(2, 2)], "control": [(2, 2), 1], "control+": [(1, 2)]}        # matrix-valued parameters
     for meth in ("MS", "SS", "DC"):
+        out.append(("%s-matrix-params" % meth,
+                    _mk(method=meth, N=2, M=2, degree=2, params=PM, ode=E("f", None, ("x", "u", "t", "p", "pc", "pcp")),
+                        constraints=[Con(E("c1", 1, ("x", "p", "pc", "pcp")), "le", 1.0), Con(E("bf", 1, (("at", "tf", "x"), ("at", "tf", "pc"), ("at", "tf", "pcp"))), "le", 0.0)],
+                        objective=[("sum", E("S", 1, ("x", "pc", "pcp")), dict(include_last=True))])))
         for N, M in ((2, 1), (3, 2)):
             out.append(("%s-N%d-M%d-params" % (meth, N, M),
                         _mk(method=meth, N=N, M=M, degree=2, params=P, ode=E("f", None, ("x", "u", "t", "p", "pc", "pcp")),
                             constraints=[Con(E("c1", 1, ("x", "p", "pc", "pcp")), "le", 1.0), Con(E("ci", 1, ("x", "pc", "pcp")), "le", 1.0, grid="integrator"),
                                          Con(E("bf", 1, (("at", "tf", "x"), ("at", "tf", "pc"), ("at", "tf", "pcp"), "p")), "le", 0.0)],
                             objective=[("sum", E("S", 1, ("x", "pc", "pcp")), dict(include_last=True)), ("integral", E("L", 1, ("x", "p", "pc")))])))
+        # parameters inside shifted operands (ocp.next): the operand lands on node k+1, also on the final node
+        out.append(("%s-N3-shifted-params" % meth,
+                    _mk(method=meth, N=3, M=1, degree=1, params=P, ode=E("f", None, ("x", "u", "t", "p", "pc", "pcp")),
+                        constraints=[Con(E("cn", 1, ("x", ("off", "x", 1), ("off", "pcp", 1), ("off", "pc", 1), "pcp", "pc", "p")), "le", 1.0),
+                                     Con(E("cp", 1, ("x", ("off", "pcp", -1), ("off", "pc", -1))), "le", 1.0)],
+                        objective=[("sum", E("Sn", 1, (("off", "x", 1), ("off", "pcp", 1), "pc")), {})])))
         out.append(("%s-Tparam" % meth, _mk(method=meth, N=2, M=2, degree=2, T=("param",), t0=("param",), ode=E("f", None, ("x", "u", "t")),
                                             constraints=[Con(E("c1", 1, ("x", "t", "T")), "le", 1.0)], objective=[("at_tf", E("Mf", 1, ("x", "T", "t")))])))
     return out
